@@ -235,25 +235,71 @@ func c06OwnedPaths(w *World, r *Report) {
 		return false, fmt.Sprintf("%T", v)
 	}
 	n := 0
-	for _, key := range []string{"xpath"} {
-		sp := w.SSAPkg(key)
-		for _, fn := range allFuncs(sp) {
-			for _, b := range fn.Blocks {
-				for _, in := range b.Instrs {
-					ci, ok := in.(ssa.CallInstruction)
-					if !ok || ci.Common().StaticCallee() == nil || ci.Common().StaticCallee().Object() != push {
-						continue
-					}
-					n++
-					ok2, how := owned(ci.Common().Args[1], 0)
-					r.Check(ok2, "R06.8", fn.String()+": PushPath("+w.ExprNear(ci.Pos())+")", ci.Pos(), how, "a path that is "+how+" is put on the run's path stack: the steps after it append to that object, so an Entry that returns its stored path has it grow with every run (deref(a)/../b navigates target/../b, then target/../b/../b) and concurrent runs race on it")
-				}
-			}
-		}
+	for _, ev := range pathStackPushes(w) {
+		n++
+		ok2, how := owned(ev.val, 0)
+		r.Check(ok2, "R06.8", ev.fn.String()+": PushPath("+w.ExprNear(ev.pos)+")", ev.pos, how, "a path that is "+how+" is put on the run's path stack: the steps after it append to that object, so an Entry that returns its stored path has it grow with every run (deref(a)/../b navigates target/../b, then target/../b/../b) and concurrent runs race on it")
 	}
 	if n == 0 {
 		panic(undecided{"no call of PathStack.PushPath"})
 	}
+	_ = push
+}
+
+// pathPush is one place where a path is put on a run's path stack: a call of
+// PathStack.PushPath, or an append to PathStack.stack written out in place.
+type pathPush struct {
+	fn  *ssa.Function
+	pos token.Pos
+	val ssa.Value
+}
+
+func pathStackPushes(w *World) []pathPush {
+	push := w.SSAFunc(w.Method("xpath", "PathStack", "PushPath"))
+	stack := w.Field("xpath", "PathStack", "stack")
+	var out []pathPush
+	for _, fn := range allFuncs(w.SSAPkg("xpath")) {
+		if isTestFile(w, fn.Pos()) {
+			continue
+		}
+		for _, b := range fn.Blocks {
+			for _, in := range b.Instrs {
+				switch x := in.(type) {
+				case ssa.CallInstruction:
+					if push != nil && x.Common().StaticCallee() == push && len(x.Common().Args) == 2 {
+						out = append(out, pathPush{fn, x.Pos(), x.Common().Args[1]})
+					}
+				case *ssa.Store:
+					fa, ok := x.Addr.(*ssa.FieldAddr)
+					if !ok || !isFieldAddrOf(fa, stack) || fn == push {
+						continue
+					}
+					ap, ok := x.Val.(*ssa.Call)
+					if !ok {
+						continue
+					}
+					if bi, isB := ap.Call.Value.(*ssa.Builtin); !isB || bi.Name() != "append" || len(ap.Call.Args) != 2 {
+						continue
+					}
+					// the element(s) appended: stores into the one-element array behind the variadic slice
+					if sl, ok := ap.Call.Args[1].(*ssa.Slice); ok {
+						if al, ok := sl.X.(*ssa.Alloc); ok {
+							for _, ref := range *al.Referrers() {
+								if ia, ok := ref.(*ssa.IndexAddr); ok {
+									for _, r2 := range *ia.Referrers() {
+										if st, ok := r2.(*ssa.Store); ok && st.Addr == ssa.Value(ia) {
+											out = append(out, pathPush{fn, x.Pos(), st.Val})
+										}
+									}
+								}
+							}
+						}
+					}
+				}
+			}
+		}
+	}
+	return out
 }
 
 func namedStructOf(t types.Type) string {
